@@ -1,5 +1,5 @@
 //! C05 correspondence harness: compression negotiation of the real `tonic::server::Grpc` and
-//! `tonic::client::Grpc` (raw codec, unary echo handler, capturing client transport) over
+//! `tonic::client::Grpc` (raw codec, all four entry points / call shapes, capturing transport) over
 //! configurations x header values x compressed-flag values.
 use bytes::{Buf, BufMut};
 use http::{HeaderMap, HeaderName, HeaderValue};
@@ -82,7 +82,13 @@ fn compress(e: Enc, m: &[u8]) -> Vec<u8> {
             w.write_all(m).unwrap();
             w.finish().unwrap()
         }
-        Enc::Zstd => zstd::encode_all(m, 0).unwrap(),
+        Enc::Zstd => {
+            // the pull-style stream encoder: zstd::encode_all pledges the input size when the input
+            // is empty, which changes the frame header bytes (not the content)
+            let mut v = vec![];
+            zstd::stream::read::Encoder::new(m, 0).unwrap().read_to_end(&mut v).unwrap();
+            v
+        }
     }
 }
 fn inflate(e: Enc, p: &[u8]) -> Option<Vec<u8>> {
@@ -237,48 +243,225 @@ fn dedup(l: &[Enc]) -> Vec<Enc> {
     v
 }
 
+// ------------------------------------------------------------------ call shapes
+#[derive(Clone, Copy, PartialEq, Eq, Debug)]
+enum Shape {
+    Unary,
+    ServerStreaming,
+    ClientStreaming,
+    Streaming,
+}
+const SHAPES: [Shape; 4] = [Shape::Unary, Shape::ServerStreaming, Shape::ClientStreaming, Shape::Streaming];
+impl Shape {
+    fn coq(self) -> &'static str {
+        match self {
+            Shape::Unary => "Unary",
+            Shape::ServerStreaming => "ServerStreaming",
+            Shape::ClientStreaming => "ClientStreaming",
+            Shape::Streaming => "Streaming",
+        }
+    }
+    fn name(self) -> &'static str {
+        match self {
+            Shape::Unary => "unary",
+            Shape::ServerStreaming => "server_streaming",
+            Shape::ClientStreaming => "client_streaming",
+            Shape::Streaming => "streaming",
+        }
+    }
+    fn by_name(n: &str) -> Shape {
+        SHAPES.into_iter().find(|s| s.name() == n).unwrap_or(Shape::Unary)
+    }
+    fn request_is_unary(self) -> bool {
+        matches!(self, Shape::Unary | Shape::ServerStreaming)
+    }
+    fn response_is_unary(self) -> bool {
+        matches!(self, Shape::Unary | Shape::ClientStreaming)
+    }
+}
+/// every complete frame of a body, and the bytes that are left over
+fn all_frames(b: &[u8]) -> (Vec<(u8, Vec<u8>, Vec<u8>)>, usize) {
+    let mut v = vec![];
+    let mut at = 0;
+    while let Some((flag, p)) = first_frame(&b[at..]) {
+        let n = 5 + p.len();
+        v.push((flag, p, b[at..at + n].to_vec()));
+        at += n;
+    }
+    (v, b.len() - at)
+}
+/// the compressor table handed to the model: what the independent codecs produce
+fn coq_ctab(encs: &[Enc], msgs: &[Vec<u8>]) -> String {
+    let mut seen: Vec<(Enc, &Vec<u8>)> = vec![];
+    let mut items = vec![];
+    for e in encs {
+        for m in msgs {
+            if !seen.contains(&(*e, m)) {
+                seen.push((*e, m));
+                items.push(format!("({},{},{})", e.coq(), coq_bytes(m), coq_bytes(&compress(*e, m))));
+            }
+        }
+    }
+    format!("[{}]", items.join(";"))
+}
+/// a frame that is sent to the implementation: flag byte, how the harness coded the payload
+#[derive(Clone)]
+struct InFrame {
+    flag: u8,
+    codec: Option<Enc>,
+    msg: Vec<u8>,
+}
+impl InFrame {
+    fn payload(&self) -> Vec<u8> {
+        match self.codec {
+            Some(e) => compress(e, &self.msg),
+            None => self.msg.clone(),
+        }
+    }
+    fn coq(&self) -> String {
+        format!("(mkFrame {} {})", self.flag, coq_encs(&inflatable(&self.payload())))
+    }
+    fn json(&self) -> serde_json::Value {
+        json!({"flag": self.flag, "payload_compressed_with": self.codec.map(|e| e.name()), "msg": hex(&self.msg)})
+    }
+    fn of_json(v: &serde_json::Value) -> InFrame {
+        InFrame {
+            flag: v["flag"].as_u64().unwrap_or(0) as u8,
+            codec: v["payload_compressed_with"].as_str().and_then(|n| Enc::by_name(n.as_bytes())),
+            msg: unhex(v["msg"].as_str().unwrap_or("")),
+        }
+    }
+    /// own reading of the framing rule: what a receiver that negotiated `codec` must make of it
+    fn verdict(&self, negotiated: Option<Enc>) -> Result<Vec<u8>, &'static str> {
+        match self.flag {
+            0 => Ok(self.payload()),
+            1 => match negotiated {
+                None => Err("compressed flag without a negotiated encoding"),
+                Some(e) => inflate(e, &self.payload()).ok_or("payload does not inflate with the negotiated encoding"),
+            },
+            _ => Err("invalid flag"),
+        }
+    }
+}
+fn body_events(frames: &[InFrame], coalesce: bool) -> Vec<Ev<Status>> {
+    if coalesce && !frames.is_empty() {
+        vec![Ev::Data(frames.iter().flat_map(|f| frame(f.flag, &f.payload())).collect())]
+    } else {
+        frames.iter().map(|f| Ev::Data(frame(f.flag, &f.payload()))).collect()
+    }
+}
+
 // ------------------------------------------------------------------ server side
 #[derive(Clone)]
 struct HandlerSpec {
     md: Pairs,
     disable: bool,
     err: Option<(i32, String)>,
+    msgs: Vec<Vec<u8>>, // response messages (a unary response uses the first)
 }
-struct Echo {
+type Seen = Arc<Mutex<Vec<Vec<u8>>>>;
+type RespStream = tokio_stream::Iter<std::vec::IntoIter<Result<Vec<u8>, Status>>>;
+type BoxFut<T> = Pin<Box<dyn Future<Output = Result<Response<T>, Status>> + Send>>;
+impl HandlerSpec {
+    fn finish<T>(&self, body: T) -> Result<Response<T>, Status> {
+        if let Some((c, t)) = &self.err {
+            return Err(Status::new(Code::from_i32(*c), t.clone()));
+        }
+        let mut r = Response::new(body);
+        *r.metadata_mut() = MetadataMap::from_headers(mk_hm(&self.md));
+        if self.disable {
+            r.disable_compression();
+        }
+        Ok(r)
+    }
+    fn one(&self) -> Vec<u8> {
+        self.msgs.first().cloned().unwrap_or_default()
+    }
+    fn many(&self) -> RespStream {
+        tokio_stream::iter(self.msgs.iter().cloned().map(Ok).collect::<Vec<_>>())
+    }
+}
+/// the handler of a streaming request reads its stream to the end; a stream error is its result
+async fn drain(mut s: tonic::Streaming<Vec<u8>>, seen: Seen) -> Result<(), Status> {
+    loop {
+        match s.message().await {
+            Ok(Some(m)) => seen.lock().unwrap().push(m),
+            Ok(None) => return Ok(()),
+            Err(st) => return Err(st),
+        }
+    }
+}
+struct H {
     spec: HandlerSpec,
-    seen: Arc<Mutex<Option<Vec<u8>>>>,
+    seen: Seen,
 }
-impl tower_service::Service<Request<Vec<u8>>> for Echo {
+struct UnaryH(H);
+struct ServerStreamingH(H);
+struct ClientStreamingH(H);
+struct StreamingH(H);
+macro_rules! ready_ok {
+    () => {
+        fn poll_ready(&mut self, _: &mut Context<'_>) -> Poll<Result<(), Status>> {
+            Poll::Ready(Ok(()))
+        }
+    };
+}
+impl tower_service::Service<Request<Vec<u8>>> for UnaryH {
     type Response = Response<Vec<u8>>;
     type Error = Status;
     type Future = std::future::Ready<Result<Response<Vec<u8>>, Status>>;
-    fn poll_ready(&mut self, _: &mut Context<'_>) -> Poll<Result<(), Status>> {
-        Poll::Ready(Ok(()))
-    }
+    ready_ok!();
     fn call(&mut self, req: Request<Vec<u8>>) -> Self::Future {
-        let m = req.into_inner();
-        *self.seen.lock().unwrap() = Some(m.clone());
-        if let Some((c, t)) = &self.spec.err {
-            return std::future::ready(Err(Status::new(Code::from_i32(*c), t.clone())));
-        }
-        let mut r = Response::new(m);
-        *r.metadata_mut() = MetadataMap::from_headers(mk_hm(&self.spec.md));
-        if self.spec.disable {
-            r.disable_compression();
-        }
-        std::future::ready(Ok(r))
+        self.0.seen.lock().unwrap().push(req.into_inner());
+        std::future::ready(self.0.spec.finish(self.0.spec.one()))
+    }
+}
+impl tower_service::Service<Request<Vec<u8>>> for ServerStreamingH {
+    type Response = Response<RespStream>;
+    type Error = Status;
+    type Future = std::future::Ready<Result<Response<RespStream>, Status>>;
+    ready_ok!();
+    fn call(&mut self, req: Request<Vec<u8>>) -> Self::Future {
+        self.0.seen.lock().unwrap().push(req.into_inner());
+        std::future::ready(self.0.spec.finish(self.0.spec.many()))
+    }
+}
+impl tower_service::Service<Request<tonic::Streaming<Vec<u8>>>> for ClientStreamingH {
+    type Response = Response<Vec<u8>>;
+    type Error = Status;
+    type Future = BoxFut<Vec<u8>>;
+    ready_ok!();
+    fn call(&mut self, req: Request<tonic::Streaming<Vec<u8>>>) -> Self::Future {
+        let (spec, seen) = (self.0.spec.clone(), self.0.seen.clone());
+        Box::pin(async move {
+            drain(req.into_inner(), seen).await?;
+            spec.finish(spec.one())
+        })
+    }
+}
+impl tower_service::Service<Request<tonic::Streaming<Vec<u8>>>> for StreamingH {
+    type Response = Response<RespStream>;
+    type Error = Status;
+    type Future = BoxFut<RespStream>;
+    ready_ok!();
+    fn call(&mut self, req: Request<tonic::Streaming<Vec<u8>>>) -> Self::Future {
+        let (spec, seen) = (self.0.spec.clone(), self.0.seen.clone());
+        Box::pin(async move {
+            drain(req.into_inner(), seen).await?;
+            spec.finish(spec.many())
+        })
     }
 }
 
 struct ServerCase {
+    shape: Shape,
     accept: Vec<Enc>, // accept_compressed calls in order
     send: Vec<Enc>,   // send_compressed calls in order
     via_apply: bool,  // through apply_compression_config (as generated servers do)
     headers: Pairs,
-    flag: u8,
-    body_codec: Option<Enc>, // how the harness compressed the request payload
+    frames: Vec<InFrame>,
+    coalesce: bool, // all request frames in one body chunk
     handler: HandlerSpec,
-    msg: Vec<u8>,
 }
 
 fn enabled_of(l: &[Enc]) -> EnabledCompressionEncodings {
@@ -325,19 +508,33 @@ where
         }
     }
 }
+fn outcome_of(obs: &Tr) -> String {
+    match obs {
+        Tr::L(v) => match v.first() {
+            Some(Tr::N(n)) => n.to_string(),
+            _ => "?".into(),
+        },
+        _ => "?".into(),
+    }
+}
+fn encoding_class(v: Option<&Vec<u8>>, set: &[Enc]) -> String {
+    match v {
+        None => "absent".to_string(),
+        Some(v) if v.as_slice() == b"identity" => "identity".into(),
+        Some(v) => match Enc::by_name(v) {
+            Some(e) if set.contains(&e) => "enabled".into(),
+            Some(_) => "known-not-enabled".into(),
+            None => "unknown".into(),
+        },
+    }
+}
 
 fn case_server(out: &mut Out, kind: &str, c: ServerCase) {
     let req_hm = mk_hm(&c.headers);
     let handler_hm = mk_hm(&c.handler.md);
-    let payload = match c.body_codec {
-        Some(e) => compress(e, &c.msg),
-        None => c.msg.clone(),
-    };
-    let infl = inflatable(&payload);
-    // a frame with flag 0 carries its payload as the message, whatever the payload looks like
-    let delivered: Vec<u8> = if c.flag == 0 { payload.clone() } else { c.msg.clone() };
     let acc_set = dedup(&c.accept);
     let send_set = dedup(&c.send);
+    let resp_msgs: Vec<Vec<u8>> = if c.shape.response_is_unary() { vec![c.handler.one()] } else { c.handler.msgs.clone() };
 
     // ---- model expression
     let sv = if c.via_apply {
@@ -352,27 +549,28 @@ fn case_server(out: &mut Out, kind: &str, c: ServerCase) {
     let h = match &c.handler.err {
         Some((code, t)) => format!("(HErr (mkStatus {} {} [] []))", code, coq_bytes(t.as_bytes())),
         None => format!(
-            "(HOk {} {})",
+            "(HOk {} {} {})",
             coq_hm(&handler_hm),
-            if c.handler.disable { "Disable" } else { "Inherit" }
+            if c.handler.disable { "Disable" } else { "Inherit" },
+            coq_list(&c.handler.msgs, |m| coq_bytes(m))
         ),
     };
     let model = format!(
-        "obs_server {} (mkRequest {} {} {}) {}",
+        "obs_server {} {} {} (mkRequest {} {}) {}",
+        coq_ctab(&send_set, &resp_msgs),
+        c.shape.coq(),
         sv,
         coq_hm(&req_hm),
-        c.flag,
-        coq_encs(&infl),
+        coq_list(&c.frames, |f| f.coq()),
         h
     );
 
     // ---- implementation
-    let seen = Arc::new(Mutex::new(None));
+    let seen: Seen = Arc::new(Mutex::new(vec![]));
     let run = {
         let seen = seen.clone();
         let c = &c;
         let req_hm = req_hm.clone();
-        let payload = payload.clone();
         std::panic::AssertUnwindSafe(move || {
             let mut grpc = tonic::server::Grpc::new(RawCodec);
             if c.via_apply {
@@ -385,13 +583,19 @@ fn case_server(out: &mut Out, kind: &str, c: ServerCase) {
                     grpc = grpc.send_compressed(e.tonic());
                 }
             }
-            let (body, _) = ScriptBody::<Status>::new(vec![Ev::Data(frame(c.flag, &payload))]);
+            let (body, _) = ScriptBody::<Status>::new(body_events(&c.frames, c.coalesce));
             let mut req = http::Request::new(body);
             *req.method_mut() = http::Method::POST;
             *req.uri_mut() = "/s/m".parse().unwrap();
             *req.headers_mut() = req_hm;
-            let svc = Echo { spec: c.handler.clone(), seen };
-            let resp = match spin(grpc.unary(svc, req), 100_000) {
+            let h = H { spec: c.handler.clone(), seen };
+            let resp = match c.shape {
+                Shape::Unary => spin(grpc.unary(UnaryH(h), req), 100_000),
+                Shape::ServerStreaming => spin(grpc.server_streaming(ServerStreamingH(h), req), 100_000),
+                Shape::ClientStreaming => spin(grpc.client_streaming(ClientStreamingH(h), req), 100_000),
+                Shape::Streaming => spin(grpc.streaming(StreamingH(h), req), 100_000),
+            };
+            let resp = match resp {
                 Ok(r) => r,
                 Err(()) => return None,
             };
@@ -401,7 +605,7 @@ fn case_server(out: &mut Out, kind: &str, c: ServerCase) {
     };
     let res = catch(run);
 
-    // what the property needs to know about the request (own reading of the headers)
+    // ---- what the property needs to know about the request (own reading of the headers)
     let enc_lines = values(&req_hm, ENCODING);
     let acc_lines = values(&req_hm, ACCEPT);
     let single_enc = enc_lines.len() <= 1;
@@ -411,6 +615,14 @@ fn case_server(out: &mut Out, kind: &str, c: ServerCase) {
         Some(v) => v.as_slice() == b"identity" || Enc::by_name(v).map_or(false, |e| acc_set.contains(&e)),
     };
     let req_codec: Option<Enc> = req_enc.and_then(|v| Enc::by_name(v)).filter(|e| acc_set.contains(e));
+    let verdicts: Vec<Result<Vec<u8>, &'static str>> = c.frames.iter().map(|f| f.verdict(req_codec)).collect();
+    let first_bad: Option<&'static str> = verdicts.iter().find_map(|v| v.as_ref().err().copied());
+    let good: Vec<Vec<u8>> = verdicts.iter().take_while(|v| v.is_ok()).map(|v| v.clone().unwrap()).collect();
+    let must_fail_internal: Option<&'static str> = match first_bad {
+        Some(w) => Some(w),
+        None if c.shape.request_is_unary() && c.frames.is_empty() => Some("no request message"),
+        None => None,
+    };
     let offered_any: Vec<Enc> = acc_lines.iter().flat_map(|v| tokens(v)).filter_map(|t| Enc::by_name(&t)).collect();
     let clean_single = acc_lines.len() == 1 && is_clean(&acc_lines[0]);
     let expected_clean: Option<Enc> = if clean_single {
@@ -418,7 +630,10 @@ fn case_server(out: &mut Out, kind: &str, c: ServerCase) {
     } else {
         None
     };
-    let handler_forges = handler_hm.contains_key(ENCODING);
+    // the stated premise of c05_server_announce_iff: the handler's own metadata has no
+    // grpc-encoding entry (not a reserved name in tonic).  Nothing else is excluded.
+    let premise_no_handler_grpc_encoding = !handler_hm.contains_key(ENCODING);
+    let opt_out = c.handler.disable && c.shape.response_is_unary();
 
     let mut why: Option<String> = None;
     let mut fail = |s: String| {
@@ -426,6 +641,7 @@ fn case_server(out: &mut Out, kind: &str, c: ServerCase) {
             why = Some(s);
         }
     };
+    let mut chosen_hist = "-".to_string();
     let obs = match res {
         Err(p) => {
             fail(format!("panic: {}", p));
@@ -435,8 +651,7 @@ fn case_server(out: &mut Out, kind: &str, c: ServerCase) {
             fail("the call did not complete".into());
             Tr::L(vec![Tr::n(98u8)])
         }
-        Ok(Some((headers, Collected::Hang))) => {
-            let _ = headers;
+        Ok(Some((_, Collected::Hang))) => {
             fail("the response body did not end".into());
             Tr::L(vec![Tr::n(98u8)])
         }
@@ -473,17 +688,9 @@ fn case_server(out: &mut Out, kind: &str, c: ServerCase) {
                         }
                     } else if refusal {
                         fail("an enabled / identity / absent grpc-encoding was refused".into());
-                    } else if c.flag == 1 && req_codec.is_none() {
+                    } else if let Some(w) = must_fail_internal {
                         if code != Code::Internal {
-                            fail(format!("compressed flag without a negotiated encoding answered {:?}", code));
-                        }
-                    } else if c.flag > 1 {
-                        if code != Code::Internal {
-                            fail(format!("invalid flag answered {:?}", code));
-                        }
-                    } else if c.flag == 1 && !infl.contains(&req_codec.unwrap()) {
-                        if code != Code::Internal {
-                            fail(format!("undecodable payload answered {:?}", code));
+                            fail(format!("{} answered {:?}", w, code));
                         }
                     } else {
                         match &c.handler.err {
@@ -497,111 +704,128 @@ fn case_server(out: &mut Out, kind: &str, c: ServerCase) {
                 }
                 Tr::L(vec![Tr::n(1u8), brief_tr(code, st.message(), values_tr(&headers, ACCEPT)), sel_tr(&headers)])
             } else {
-                // a response with a message
+                // a response with messages
                 let ok_trailers = trailers
                     .as_ref()
                     .and_then(|t| t.get("grpc-status"))
                     .map_or(false, |v| v.as_bytes() == b"0");
-                match first_frame(&data) {
-                    None => {
-                        fail("no complete message frame in an OK response".into());
-                        Tr::L(vec![Tr::n(96u8)])
-                    }
-                    Some((flag, p)) => {
-                        let used = used_tag(flag, &p, &delivered);
-                        if !ok_trailers {
-                            fail("trailers do not carry grpc-status 0".into());
+                let (frames, rest) = all_frames(&data);
+                if rest != 0 {
+                    fail("the response body does not consist of whole frames".into());
+                }
+                if !ok_trailers {
+                    fail("trailers do not carry grpc-status 0".into());
+                }
+                if frames.len() != resp_msgs.len() {
+                    fail(format!("{} response messages, {} frames", resp_msgs.len(), frames.len()));
+                }
+                if single_enc && !req_enc_ok {
+                    fail("a request whose grpc-encoding is not enabled was served".into());
+                }
+                if single_enc {
+                    if let Some(w) = must_fail_internal {
+                        fail(format!("{}: the request was served", w));
+                    } else {
+                        let want: Vec<Vec<u8>> = if c.shape.request_is_unary() { good.iter().take(1).cloned().collect() } else { good.clone() };
+                        if *seen.lock().unwrap() != want {
+                            fail("the handler did not receive the request message(s)".into());
                         }
-                        if seen.lock().unwrap().as_deref() != Some(&delivered[..]) {
-                            fail("the handler did not receive the request message".into());
-                        }
-                        if used == 9 {
-                            fail("the response payload is not the message under the flagged coding".into());
-                        }
-                        if single_enc && !req_enc_ok {
-                            fail("a request whose grpc-encoding is not enabled was served".into());
-                        }
-                        if single_enc && c.flag == 1 && req_codec.is_none() {
-                            fail("a compressed-flagged request without negotiated encoding was served".into());
-                        }
-                        if c.flag > 1 {
-                            fail("a request frame with an invalid flag was served".into());
-                        }
-                        let ann = values(&headers, ENCODING);
-                        let used_enc = ALL.into_iter().find(|e| e.tag() == used);
-                        if let Some(e) = used_enc {
-                            if !send_set.contains(&e) {
-                                fail(format!("response compressed with {} which is not enabled for sending ({})", e.name(), names(&send_set)));
-                            }
-                            if !offered_any.contains(&e) {
-                                fail(format!("response compressed with {} which the request does not offer", e.name()));
-                            }
-                            if ann != vec![e.name().as_bytes().to_vec()] {
-                                fail(format!("compressed with {} but grpc-encoding is {:?}", e.name(), ann));
-                            }
-                        }
-                        if c.handler.disable && used != 0 {
-                            fail("disable_compression() did not keep the message uncompressed".into());
-                        }
-                        if !handler_forges {
-                            match ann.as_slice() {
-                                [] => {}
-                                [v] => match Enc::by_name(v) {
-                                    Some(e) if send_set.contains(&e) && offered_any.contains(&e) => {
-                                        if used_enc != Some(e) && !c.handler.disable {
-                                            fail(format!("announces {} but the message is not compressed with it", e.name()));
-                                        }
-                                    }
-                                    _ => fail(format!("announces {:?}: not configured or not offered", String::from_utf8_lossy(v))),
-                                },
-                                _ => fail("several grpc-encoding headers".into()),
-                            }
-                            if clean_single {
-                                let a = ann.first().and_then(|v| Enc::by_name(v));
-                                if a != expected_clean {
-                                    fail(format!(
-                                        "offered and enabled for sending: {:?} first, announced {:?}",
-                                        expected_clean.map(|e| e.name()),
-                                        a.map(|e| e.name())
-                                    ));
-                                }
-                            }
-                        }
-                        Tr::L(vec![Tr::n(0u8), hm_tr(&headers), Tr::n(flag), Tr::n(used)])
                     }
                 }
+                let ann = values(&headers, ENCODING);
+                let announced: Option<Enc> = match ann.as_slice() {
+                    [v] => Enc::by_name(v),
+                    _ => None,
+                };
+                chosen_hist = announced.map_or("none".to_string(), |e| e.name().to_string());
+                let mut ftr = vec![];
+                for (i, (flag, p, raw)) in frames.iter().enumerate() {
+                    let msg = resp_msgs.get(i).cloned().unwrap_or_default();
+                    let used = used_tag(*flag, p, &msg);
+                    ftr.push(Tr::L(vec![Tr::n(*flag), Tr::n(used), Tr::b(raw)]));
+                    if used == 9 {
+                        fail(format!("response frame {} is not the message under the flagged coding", i));
+                    }
+                    let used_enc = ALL.into_iter().find(|e| e.tag() == used);
+                    if let Some(e) = used_enc {
+                        if !send_set.contains(&e) {
+                            fail(format!("response compressed with {} which is not enabled for sending ({})", e.name(), names(&send_set)));
+                        }
+                        if !offered_any.contains(&e) {
+                            fail(format!("response compressed with {} which the request does not offer", e.name()));
+                        }
+                        if ann != vec![e.name().as_bytes().to_vec()] {
+                            fail(format!("compressed with {} but grpc-encoding is {:?}", e.name(), ann));
+                        }
+                    }
+                    if opt_out && used != 0 {
+                        fail("disable_compression() did not keep the message uncompressed".into());
+                    }
+                    if premise_no_handler_grpc_encoding && !opt_out && used_enc != announced {
+                        fail(format!(
+                            "announces {:?} but frame {} is coded as {}",
+                            announced.map(|e| e.name()),
+                            i,
+                            used
+                        ));
+                    }
+                }
+                if premise_no_handler_grpc_encoding {
+                    match ann.as_slice() {
+                        [] => {}
+                        [v] => match Enc::by_name(v) {
+                            Some(e) if send_set.contains(&e) && offered_any.contains(&e) => {}
+                            _ => fail(format!("announces {:?}: not configured or not offered", String::from_utf8_lossy(v))),
+                        },
+                        _ => fail("several grpc-encoding headers".into()),
+                    }
+                    if clean_single && announced != expected_clean {
+                        fail(format!(
+                            "offered and enabled for sending: {:?} first, announced {:?}",
+                            expected_clean.map(|e| e.name()),
+                            announced.map(|e| e.name())
+                        ));
+                    }
+                }
+                Tr::L(vec![Tr::n(0u8), hm_tr(&headers), Tr::L(ftr)])
             }
         }
     };
     drop(fail);
 
+    out.hist("server.shape", c.shape.name());
     out.hist("server.accept_cfg", names(&acc_set));
     out.hist("server.send_cfg", names(&send_set));
     out.hist("server.accept_lines", acc_lines.len());
-    out.hist("server.request_encoding", match req_enc {
-        None => "absent".to_string(),
-        Some(v) if v.as_slice() == b"identity" => "identity".into(),
-        Some(v) => match Enc::by_name(v) {
-            Some(e) if acc_set.contains(&e) => "enabled".into(),
-            Some(_) => "known-not-enabled".into(),
-            None => "unknown".into(),
+    out.hist("server.request_encoding", encoding_class(req_enc, &acc_set));
+    out.hist("server.request_frames", c.frames.len());
+    out.hist("server.request_flags", c.frames.iter().map(|f| f.flag.to_string()).collect::<Vec<_>>().join(","));
+    out.hist("server.outcome", outcome_of(&obs));
+    out.hist("server.announced", chosen_hist);
+    out.hist(
+        "server.handler",
+        match (&c.handler.err, c.handler.disable, handler_hm.is_empty()) {
+            (Some(_), _, _) => "error",
+            (None, true, _) => "disable_compression",
+            (None, false, true) => "plain",
+            (None, false, false) => "with-metadata",
         },
-    });
-    out.hist("server.flag", c.flag);
-    out.hist("server.outcome", match &obs { Tr::L(v) => match v.first() { Some(Tr::N(n)) => n.to_string(), _ => "?".into() }, _ => "?".into() });
+    );
+    out.hist("server.handler_has_grpc_encoding(excluded from announce oracle)", !premise_no_handler_grpc_encoding);
     out.push(Case {
         kind: kind.into(),
         input: json!({
+            "shape": c.shape.name(),
             "accept": c.accept.iter().map(|e| e.name()).collect::<Vec<_>>(),
             "send": c.send.iter().map(|e| e.name()).collect::<Vec<_>>(),
             "via_apply_compression_config": c.via_apply,
             "request_headers": hm_json(&req_hm),
-            "flag": c.flag,
-            "payload_compressed_with": c.body_codec.map(|e| e.name()),
-            "msg": hex(&c.msg),
+            "request_frames": c.frames.iter().map(|f| f.json()).collect::<Vec<_>>(),
+            "coalesce": c.coalesce,
             "handler_metadata": hm_json(&handler_hm),
             "handler_disable_compression": c.handler.disable,
             "handler_err": c.handler.err.as_ref().map(|(c, t)| json!([c, t])),
+            "handler_messages": c.handler.msgs.iter().map(|m| hex(m)).collect::<Vec<_>>(),
         }),
         model,
         impl_obs: obs,
@@ -657,28 +881,28 @@ impl tower_service::Service<http::Request<tonic::body::Body>> for CaptureSvc {
 }
 
 struct ClientCase {
+    shape: Shape,
     sends: Vec<Enc>,   // send_compressed calls in order (the last one counts)
     accepts: Vec<Enc>, // accept_compressed calls in order
     user_md: Pairs,
+    msgs: Vec<Vec<u8>>, // request messages (a unary request uses the first)
     resp_headers: Pairs,
-    resp_flag: u8,
-    resp_codec: Option<Enc>,
-    resp_has_body: bool,
-    msg: Vec<u8>,
+    resp_frames: Vec<InFrame>,
+    trailers_only: bool, // headers only: no frames, no trailers
+    coalesce: bool,
 }
-enum ClientRes {
-    Err(Status),
-    Message(Vec<u8>),
-    End,
-    Hang,
+struct ClientOut {
+    delivered: Vec<Vec<u8>>,
+    fin: Result<(), Status>,
+    hang: bool,
 }
-fn run_client(c: &ClientCase, resp_payload: &[u8]) -> Result<(Option<(HeaderMap, Vec<u8>)>, ClientRes), String> {
+fn run_client(c: &ClientCase) -> Result<(Option<(HeaderMap, Vec<u8>)>, ClientOut), String> {
     let captured: Captured = Arc::new(Mutex::new(None));
     let cap2 = captured.clone();
     let r = catch(std::panic::AssertUnwindSafe(move || {
         let mut evs = vec![];
-        if c.resp_has_body {
-            evs.push(Ev::Data(frame(c.resp_flag, resp_payload)));
+        if !c.trailers_only {
+            evs = body_events(&c.resp_frames, c.coalesce);
             let mut t = HeaderMap::new();
             t.insert("grpc-status", HeaderValue::from_static("0"));
             evs.push(Ev::Trailers(t));
@@ -691,20 +915,56 @@ fn run_client(c: &ClientCase, resp_payload: &[u8]) -> Result<(Option<(HeaderMap,
         for e in &c.accepts {
             client = client.accept_compressed(e.tonic());
         }
-        let mut req = Request::new(tokio_stream::once(c.msg.clone()));
-        *req.metadata_mut() = MetadataMap::from_headers(mk_hm(&c.user_md));
+        let md = MetadataMap::from_headers(mk_hm(&c.user_md));
         let path = http::uri::PathAndQuery::from_static("/s/m");
-        match spin(client.streaming(req, path, RawCodec), 100_000) {
-            Err(()) => ClientRes::Hang,
-            Ok(Err(st)) => ClientRes::Err(st),
-            Ok(Ok(resp)) => {
-                let mut s = resp.into_inner();
-                match spin(s.message(), 100_000) {
-                    Err(()) => ClientRes::Hang,
-                    Ok(Err(st)) => ClientRes::Err(st),
-                    Ok(Ok(Some(m))) => ClientRes::Message(m),
-                    Ok(Ok(None)) => ClientRes::End,
+        let first = c.msgs.first().cloned().unwrap_or_default();
+        let hang = ClientOut { delivered: vec![], fin: Ok(()), hang: true };
+        fn single(r: Result<Result<Response<Vec<u8>>, Status>, ()>) -> ClientOut {
+            match r {
+                Err(()) => ClientOut { delivered: vec![], fin: Ok(()), hang: true },
+                Ok(Err(st)) => ClientOut { delivered: vec![], fin: Err(st), hang: false },
+                Ok(Ok(resp)) => ClientOut { delivered: vec![resp.into_inner()], fin: Ok(()), hang: false },
+            }
+        }
+        fn stream(r: Result<Result<Response<tonic::Streaming<Vec<u8>>>, Status>, ()>) -> ClientOut {
+            match r {
+                Err(()) => ClientOut { delivered: vec![], fin: Ok(()), hang: true },
+                Ok(Err(st)) => ClientOut { delivered: vec![], fin: Err(st), hang: false },
+                Ok(Ok(resp)) => {
+                    let mut s = resp.into_inner();
+                    let mut delivered = vec![];
+                    loop {
+                        match spin(s.message(), 100_000) {
+                            Err(()) => return ClientOut { delivered, fin: Ok(()), hang: true },
+                            Ok(Err(st)) => return ClientOut { delivered, fin: Err(st), hang: false },
+                            Ok(Ok(Some(m))) => delivered.push(m),
+                            Ok(Ok(None)) => return ClientOut { delivered, fin: Ok(()), hang: false },
+                        }
+                    }
                 }
+            }
+        }
+        let _ = &hang;
+        match c.shape {
+            Shape::Unary => {
+                let mut req = Request::new(first);
+                *req.metadata_mut() = md;
+                single(spin(client.unary(req, path, RawCodec), 100_000))
+            }
+            Shape::ServerStreaming => {
+                let mut req = Request::new(first);
+                *req.metadata_mut() = md;
+                stream(spin(client.server_streaming(req, path, RawCodec), 100_000))
+            }
+            Shape::ClientStreaming => {
+                let mut req = Request::new(tokio_stream::iter(c.msgs.clone()));
+                *req.metadata_mut() = md;
+                single(spin(client.client_streaming(req, path, RawCodec), 100_000))
+            }
+            Shape::Streaming => {
+                let mut req = Request::new(tokio_stream::iter(c.msgs.clone()));
+                *req.metadata_mut() = md;
+                stream(spin(client.streaming(req, path, RawCodec), 100_000))
             }
         }
     }));
@@ -718,11 +978,19 @@ fn client_coq(c: &ClientCase) -> String {
 /// what the client puts on the wire
 fn case_client_request(out: &mut Out, kind: &str, c: ClientCase) {
     let user_hm = mk_hm(&c.user_md);
-    let model = format!("obs_client_request {} {}", client_coq(&c), coq_hm(&user_hm));
     let acc_set = dedup(&c.accepts);
     let told = c.sends.last().copied();
+    let sent: Vec<Vec<u8>> = if c.shape.request_is_unary() { vec![c.msgs.first().cloned().unwrap_or_default()] } else { c.msgs.clone() };
+    let model = format!(
+        "obs_client_request {} {} {} {} {}",
+        coq_ctab(&told.into_iter().collect::<Vec<_>>(), &sent),
+        c.shape.coq(),
+        client_coq(&c),
+        coq_hm(&user_hm),
+        coq_list(&c.msgs, |m| coq_bytes(m))
+    );
     let mut why = None;
-    let obs = match run_client(&c, &c.msg) {
+    let obs = match run_client(&c) {
         Err(p) => {
             why = Some(format!("panic: {}", p));
             Tr::L(vec![Tr::n(99u8)])
@@ -731,60 +999,72 @@ fn case_client_request(out: &mut Out, kind: &str, c: ClientCase) {
             why = Some("no request reached the transport".into());
             Tr::L(vec![Tr::n(98u8)])
         }
-        Ok((Some((headers, data)), _)) => match first_frame(&data) {
-            None => {
-                why = Some("no complete message frame in the request".into());
-                Tr::L(vec![Tr::n(96u8)])
+        Ok((Some((headers, data)), _)) => {
+            let (frames, rest) = all_frames(&data);
+            if rest != 0 {
+                why = Some("the request body does not consist of whole frames".into());
             }
-            Some((flag, p)) => {
-                let used = used_tag(flag, &p, &c.msg);
-                let want = told.map_or(0, |e| e.tag());
+            if frames.len() != sent.len() {
+                why = Some(format!("{} request messages, {} frames", sent.len(), frames.len()));
+            }
+            let mut ftr = vec![];
+            let want = told.map_or(0, |e| e.tag());
+            for (i, (flag, p, raw)) in frames.iter().enumerate() {
+                let used = used_tag(*flag, p, &sent.get(i).cloned().unwrap_or_default());
+                ftr.push(Tr::L(vec![Tr::n(*flag), Tr::n(used), Tr::b(raw)]));
                 if used != want {
                     why = Some(format!(
-                        "told to send {:?}, request frame flag {} coded as {}",
+                        "told to send {:?}, request frame {} has flag {} and is coded as {}",
                         told.map(|e| e.name()),
+                        i,
                         flag,
                         used
                     ));
                 }
-                let ann = values(&headers, ENCODING);
-                match told {
-                    Some(e) => {
-                        if ann != vec![e.name().as_bytes().to_vec()] {
-                            why = Some(format!("told to send {}, grpc-encoding is {:?}", e.name(), ann));
-                        }
-                    }
-                    None => {
-                        if !user_hm.contains_key(ENCODING) && !ann.is_empty() {
-                            why = Some("grpc-encoding sent although no encoding was configured".into());
-                        }
-                    }
-                }
-                let adv = values(&headers, ACCEPT);
-                if acc_set.is_empty() {
-                    if !user_hm.contains_key(ACCEPT) && !adv.is_empty() {
-                        why = Some("advertises encodings although none is accepted".into());
-                    }
-                } else if adv.len() != 1 || !lists_precisely(&adv[0], &acc_set) {
-                    why = Some(format!(
-                        "accepts {} but advertises {:?}",
-                        names(&acc_set),
-                        adv.iter().map(|v| String::from_utf8_lossy(v).to_string()).collect::<Vec<_>>()
-                    ));
-                }
-                Tr::L(vec![Tr::n(0u8), hm_tr(&headers), Tr::n(flag), Tr::n(used)])
             }
-        },
+            let ann = values(&headers, ENCODING);
+            match told {
+                Some(e) => {
+                    if ann != vec![e.name().as_bytes().to_vec()] {
+                        why = Some(format!("told to send {}, grpc-encoding is {:?}", e.name(), ann));
+                    }
+                }
+                // stated premise: the caller's own metadata has no grpc-encoding entry
+                None => {
+                    if !user_hm.contains_key(ENCODING) && !ann.is_empty() {
+                        why = Some("grpc-encoding sent although no encoding was configured".into());
+                    }
+                }
+            }
+            let adv = values(&headers, ACCEPT);
+            if acc_set.is_empty() {
+                // stated premise: the caller's own metadata has no grpc-accept-encoding entry
+                if !user_hm.contains_key(ACCEPT) && !adv.is_empty() {
+                    why = Some("advertises encodings although none is accepted".into());
+                }
+            } else if adv.len() != 1 || !lists_precisely(&adv[0], &acc_set) {
+                why = Some(format!(
+                    "accepts {} but advertises {:?}",
+                    names(&acc_set),
+                    adv.iter().map(|v| String::from_utf8_lossy(v).to_string()).collect::<Vec<_>>()
+                ));
+            }
+            Tr::L(vec![Tr::n(0u8), hm_tr(&headers), Tr::L(ftr)])
+        }
     };
+    out.hist("client.shape", c.shape.name());
     out.hist("client.send_cfg", told.map_or("none", |e| e.name()));
     out.hist("client.accept_cfg", names(&acc_set));
+    out.hist("client.request_messages", sent.len());
+    out.hist("client.user_md_has_protocol_names(excluded from the None branches)", user_hm.contains_key(ENCODING) || user_hm.contains_key(ACCEPT));
     out.push(Case {
         kind: kind.into(),
         input: json!({
+            "shape": c.shape.name(),
             "send_calls": c.sends.iter().map(|e| e.name()).collect::<Vec<_>>(),
             "accept_calls": c.accepts.iter().map(|e| e.name()).collect::<Vec<_>>(),
             "user_metadata": hm_json(&user_hm),
-            "msg": hex(&c.msg),
+            "msgs": c.msgs.iter().map(|m| hex(m)).collect::<Vec<_>>(),
         }),
         model,
         impl_obs: obs,
@@ -796,24 +1076,15 @@ fn case_client_request(out: &mut Out, kind: &str, c: ClientCase) {
 /// what the client does with a response
 fn case_client_receive(out: &mut Out, kind: &str, c: ClientCase) {
     let resp_hm = mk_hm(&c.resp_headers);
-    let payload = match c.resp_codec {
-        Some(e) => compress(e, &c.msg),
-        None => c.msg.clone(),
-    };
-    let infl = inflatable(&payload);
-    let delivered: Vec<u8> = if c.resp_flag == 0 { payload.clone() } else { c.msg.clone() };
     let acc_set = dedup(&c.accepts);
-    let model = if c.resp_has_body {
-        format!(
-            "obs_client_receive {} {} {} {}",
-            client_coq(&c),
-            coq_hm(&resp_hm),
-            c.resp_flag,
-            coq_encs(&infl)
-        )
-    } else {
-        format!("obs_client_no_body {} {}", client_coq(&c), coq_hm(&resp_hm))
-    };
+    let frames: Vec<InFrame> = if c.trailers_only { vec![] } else { c.resp_frames.clone() };
+    let model = format!(
+        "obs_client_receive {} {} {} {}",
+        c.shape.coq(),
+        client_coq(&c),
+        coq_hm(&resp_hm),
+        coq_list(&frames, |f| f.coq())
+    );
     let enc_lines = values(&resp_hm, ENCODING);
     let single = enc_lines.len() <= 1;
     let enc = enc_lines.first();
@@ -822,88 +1093,97 @@ fn case_client_receive(out: &mut Out, kind: &str, c: ClientCase) {
         Some(v) => v.as_slice() == b"identity" || Enc::by_name(v).map_or(false, |e| acc_set.contains(&e)),
     };
     let codec = enc.and_then(|v| Enc::by_name(v)).filter(|e| acc_set.contains(e));
-    let trailers_only = resp_hm.contains_key("grpc-status");
+    let status_in_headers = resp_hm.contains_key("grpc-status");
+    let verdicts: Vec<Result<Vec<u8>, &'static str>> = frames.iter().map(|f| f.verdict(codec)).collect();
+    let first_bad: Option<&'static str> = verdicts.iter().find_map(|v| v.as_ref().err().copied());
+    let good: Vec<Vec<u8>> = verdicts.iter().take_while(|v| v.is_ok()).map(|v| v.clone().unwrap()).collect();
     let mut why = None;
-    let obs = match run_client(&c, &payload) {
+    let obs = match run_client(&c) {
         Err(p) => {
             why = Some(format!("panic: {}", p));
             Tr::L(vec![Tr::n(99u8)])
         }
-        Ok((_, ClientRes::Hang)) => {
+        Ok((_, o)) if o.hang => {
             why = Some("the call did not complete".into());
             Tr::L(vec![Tr::n(98u8)])
         }
-        Ok((_, ClientRes::Err(st))) => {
-            let refusal = st.code() == Code::Unimplemented && st.message().starts_with(PREFIXES[0]);
+        Ok((_, o)) => {
+            let refusal = matches!(&o.fin, Err(st) if st.code() == Code::Unimplemented && st.message().starts_with(PREFIXES[0]));
             if single {
                 if !enc_ok {
                     if !refusal {
                         why = Some(format!(
-                            "response grpc-encoding {:?} is not enabled for receiving but the call failed with {:?}",
-                            String::from_utf8_lossy(enc.unwrap()),
-                            st.code()
+                            "response grpc-encoding {:?} is not enabled for receiving but the call was not refused with UNIMPLEMENTED",
+                            String::from_utf8_lossy(enc.unwrap())
                         ));
+                    } else if !o.delivered.is_empty() {
+                        why = Some("messages of a refused response were delivered".into());
                     }
                 } else if refusal {
                     why = Some("an enabled / identity / absent response grpc-encoding was refused".into());
-                } else if !trailers_only && c.resp_has_body {
-                    if c.resp_flag == 1 && codec.is_none() {
-                        if st.code() != Code::Internal {
-                            why = Some(format!("compressed flag without a negotiated encoding gave {:?}", st.code()));
-                        }
-                    } else if c.resp_flag > 1 || (c.resp_flag == 1 && !infl.contains(&codec.unwrap())) {
-                        if st.code() != Code::Internal {
-                            why = Some(format!("undecodable frame gave {:?}", st.code()));
+                } else if !status_in_headers {
+                    // the frames decide
+                    if c.shape.response_is_unary() {
+                        match (&o.fin, first_bad, frames.is_empty()) {
+                            (Err(st), Some(w), _) => {
+                                if st.code() != Code::Internal {
+                                    why = Some(format!("{} gave {:?}", w, st.code()));
+                                }
+                            }
+                            (Err(st), None, true) => {
+                                if st.code() != Code::Internal {
+                                    why = Some(format!("a response without message gave {:?}", st.code()));
+                                }
+                            }
+                            (Err(st), None, false) => why = Some(format!("unexpected error {:?}: {}", st.code(), st.message())),
+                            (Ok(()), Some(w), _) => why = Some(format!("{}: the response was accepted", w)),
+                            (Ok(()), None, _) => {
+                                if o.delivered != good.iter().take(1).cloned().collect::<Vec<_>>() {
+                                    why = Some("the delivered message differs from the one sent".into());
+                                }
+                            }
                         }
                     } else {
-                        why = Some(format!("unexpected error {:?}: {}", st.code(), st.message()));
+                        if o.delivered != good {
+                            why = Some("the delivered messages differ from the well-formed prefix of the frames".into());
+                        }
+                        match (&o.fin, first_bad) {
+                            (Err(st), Some(w)) => {
+                                if st.code() != Code::Internal {
+                                    why = Some(format!("{} gave {:?}", w, st.code()));
+                                }
+                            }
+                            (Err(st), None) => why = Some(format!("unexpected error {:?}: {}", st.code(), st.message())),
+                            (Ok(()), Some(w)) => why = Some(format!("{}: the stream ended cleanly", w)),
+                            (Ok(()), None) => {}
+                        }
                     }
                 }
             }
-            let md = st.metadata().clone().into_headers();
-            Tr::L(vec![Tr::n(1u8), brief_tr(st.code(), st.message(), values_tr(&md, ACCEPT))])
-        }
-        Ok((_, ClientRes::Message(m))) => {
-            if single && !enc_ok {
-                why = Some("a response whose grpc-encoding is not enabled was accepted".into());
-            } else if single && c.resp_flag == 1 && codec.is_none() {
-                why = Some("a compressed-flagged message without negotiated encoding was delivered".into());
-            } else if c.resp_flag > 1 {
-                why = Some("a frame with an invalid flag was delivered".into());
-            } else if m != delivered {
-                why = Some("the delivered message differs from the one sent".into());
+            match &o.fin {
+                Ok(()) => Tr::L(vec![Tr::n(0u8), Tr::n(o.delivered.len() as u64)]),
+                Err(st) => {
+                    let md = st.metadata().clone().into_headers();
+                    Tr::L(vec![Tr::n(1u8), Tr::n(o.delivered.len() as u64), brief_tr(st.code(), st.message(), values_tr(&md, ACCEPT))])
+                }
             }
-            Tr::L(vec![Tr::n(0u8)])
-        }
-        Ok((_, ClientRes::End)) => {
-            if single && !enc_ok {
-                why = Some("a response whose grpc-encoding is not enabled was accepted".into());
-            } else if c.resp_has_body && !trailers_only {
-                why = Some("the response message was not delivered".into());
-            }
-            Tr::L(vec![Tr::n(2u8)])
         }
     };
-    out.hist("client.response_encoding", match enc {
-        None => "absent".to_string(),
-        Some(v) if v.as_slice() == b"identity" => "identity".into(),
-        Some(v) => match Enc::by_name(v) {
-            Some(e) if acc_set.contains(&e) => "enabled".into(),
-            Some(_) => "known-not-enabled".into(),
-            None => "unknown".into(),
-        },
-    });
-    out.hist("client.response_flag", c.resp_flag);
+    out.hist("client.receive_shape", c.shape.name());
+    out.hist("client.response_encoding", encoding_class(enc, &acc_set));
+    out.hist("client.response_flags", frames.iter().map(|f| f.flag.to_string()).collect::<Vec<_>>().join(","));
+    out.hist("client.receive_outcome", outcome_of(&obs));
     out.push(Case {
         kind: kind.into(),
         input: json!({
+            "shape": c.shape.name(),
             "accept_calls": c.accepts.iter().map(|e| e.name()).collect::<Vec<_>>(),
             "send_calls": c.sends.iter().map(|e| e.name()).collect::<Vec<_>>(),
             "response_headers": hm_json(&resp_hm),
-            "flag": c.resp_flag,
-            "payload_compressed_with": c.resp_codec.map(|e| e.name()),
-            "has_body": c.resp_has_body,
-            "msg": hex(&c.msg),
+            "response_frames": c.resp_frames.iter().map(|f| f.json()).collect::<Vec<_>>(),
+            "trailers_only": c.trailers_only,
+            "coalesce": c.coalesce,
+            "msgs": c.msgs.iter().map(|m| hex(m)).collect::<Vec<_>>(),
         }),
         model,
         impl_obs: obs,
@@ -1113,8 +1393,7 @@ fn gen_request_headers(r: &mut Rng, acc_cfg: &[Enc]) -> (Pairs, Option<Vec<u8>>)
         }
     }
     (h, enc)
-}
-fn gen_msg(r: &mut Rng) -> Vec<u8> {
+}fn gen_msg(r: &mut Rng) -> Vec<u8> {
     match r.below(6) {
         0 => vec![],
         1 => b"hello hello hello hello hello hello".to_vec(),
@@ -1123,6 +1402,10 @@ fn gen_msg(r: &mut Rng) -> Vec<u8> {
             r.bytes(n)
         }
     }
+}
+fn gen_msgs(r: &mut Rng) -> Vec<Vec<u8>> {
+    let n = *r.pick(&[1usize, 1, 1, 2, 2, 3, 0]);
+    (0..n.max(0)).map(|_| gen_msg(r)).collect()
 }
 fn gen_handler(r: &mut Rng) -> HandlerSpec {
     let mut md: Pairs = vec![];
@@ -1138,28 +1421,52 @@ fn gen_handler(r: &mut Rng) -> HandlerSpec {
     if r.chance(1, 30) {
         md.push(("content-type".into(), b"text/plain".to_vec()));
     }
+    let mut msgs = gen_msgs(r);
+    if msgs.is_empty() && r.chance(1, 2) {
+        msgs.push(gen_msg(r));
+    }
     HandlerSpec {
         md,
         disable: r.chance(1, 4),
         err: if r.chance(1, 25) { Some((5, "nf".to_string())) } else { None },
+        msgs,
     }
 }
-fn plain_handler() -> HandlerSpec {
-    HandlerSpec { md: vec![], disable: false, err: None }
+fn plain_handler(msg: &[u8]) -> HandlerSpec {
+    HandlerSpec { md: vec![], disable: false, err: None, msgs: vec![msg.to_vec()] }
 }
 /// flag and payload coding of a frame whose stream announces `enc`
-fn gen_frame(r: &mut Rng, enc: &Option<Vec<u8>>) -> (u8, Option<Enc>) {
+fn gen_frame(r: &mut Rng, enc: &Option<Vec<u8>>) -> InFrame {
     let named = enc.as_ref().and_then(|v| Enc::by_name(v));
-    match r.below(20) {
+    let (flag, codec) = match r.below(20) {
         0..=7 => (0, None),
         8..=14 => (1, named.or_else(|| if r.chance(1, 2) { Some(*r.pick(&ALL)) } else { None })),
         15 | 16 => (1, Some(*r.pick(&ALL))),
         17 => (1, None),
         18 => (0, named),
         _ => (*r.pick(&[2u8, 3, 128, 255]), None),
-    }
+    };
+    InFrame { flag, codec, msg: gen_msg(r) }
 }
-
+/// the frames of one body: mostly one, sometimes none or several; mostly consistent with `enc`
+fn gen_frames(r: &mut Rng, enc: &Option<Vec<u8>>) -> Vec<InFrame> {
+    let n = *r.pick(&[1usize, 1, 1, 1, 2, 2, 3, 0]);
+    let named = enc.as_ref().and_then(|v| Enc::by_name(v));
+    (0..n)
+        .map(|_| {
+            if r.chance(2, 3) {
+                // well-formed for the announced encoding
+                if named.is_some() && r.chance(2, 3) {
+                    InFrame { flag: 1, codec: named, msg: gen_msg(r) }
+                } else {
+                    InFrame { flag: 0, codec: None, msg: gen_msg(r) }
+                }
+            } else {
+                gen_frame(r, enc)
+            }
+        })
+        .collect()
+}
 
 // ------------------------------------------------------------------ replay of one stored case
 fn encs_of(v: &serde_json::Value) -> Vec<Enc> {
@@ -1176,40 +1483,45 @@ fn pairs_of(v: &serde_json::Value) -> Pairs {
         })
         .unwrap_or_default()
 }
-fn enc_of(v: &serde_json::Value) -> Option<Enc> {
-    v.as_str().and_then(|n| Enc::by_name(n.as_bytes()))
+fn msgs_of(v: &serde_json::Value) -> Vec<Vec<u8>> {
+    v.as_array().map(|a| a.iter().map(|m| unhex(m.as_str().unwrap_or(""))).collect()).unwrap_or_default()
+}
+fn frames_of(v: &serde_json::Value) -> Vec<InFrame> {
+    v.as_array().map(|a| a.iter().map(InFrame::of_json).collect()).unwrap_or_default()
 }
 /// `file` is a replay written by ./check (fields `kind`, `input`) or a bare case record
 fn replay(out: &mut Out, file: &str) {
     let v: serde_json::Value = serde_json::from_str(&std::fs::read_to_string(file).expect("replay file")).expect("json");
     let kind = v["kind"].as_str().unwrap_or("server").to_string();
     let i = &v["input"];
-    let msg = unhex(i["msg"].as_str().unwrap_or(""));
+    let shape = Shape::by_name(i["shape"].as_str().unwrap_or("unary"));
     if kind.ends_with("server") {
         case_server(out, &kind, ServerCase {
+            shape,
             accept: encs_of(&i["accept"]),
             send: encs_of(&i["send"]),
             via_apply: i["via_apply_compression_config"].as_bool().unwrap_or(false),
             headers: pairs_of(&i["request_headers"]),
-            flag: i["flag"].as_u64().unwrap_or(0) as u8,
-            body_codec: enc_of(&i["payload_compressed_with"]),
+            frames: frames_of(&i["request_frames"]),
+            coalesce: i["coalesce"].as_bool().unwrap_or(false),
             handler: HandlerSpec {
                 md: pairs_of(&i["handler_metadata"]),
                 disable: i["handler_disable_compression"].as_bool().unwrap_or(false),
                 err: i["handler_err"].as_array().map(|a| (a[0].as_i64().unwrap_or(2) as i32, a[1].as_str().unwrap_or("").to_string())),
+                msgs: msgs_of(&i["handler_messages"]),
             },
-            msg,
         });
     } else if kind.ends_with("client_request") {
         case_client_request(out, &kind, ClientCase {
-            sends: encs_of(&i["send_calls"]), accepts: encs_of(&i["accept_calls"]), user_md: pairs_of(&i["user_metadata"]),
-            resp_headers: vec![], resp_flag: 0, resp_codec: None, resp_has_body: true, msg,
+            shape, sends: encs_of(&i["send_calls"]), accepts: encs_of(&i["accept_calls"]), user_md: pairs_of(&i["user_metadata"]),
+            msgs: msgs_of(&i["msgs"]), resp_headers: vec![], resp_frames: vec![InFrame { flag: 0, codec: None, msg: b"ok".to_vec() }],
+            trailers_only: false, coalesce: false,
         });
     } else if kind.ends_with("client_receive") {
         case_client_receive(out, &kind, ClientCase {
-            sends: encs_of(&i["send_calls"]), accepts: encs_of(&i["accept_calls"]), user_md: vec![],
-            resp_headers: pairs_of(&i["response_headers"]), resp_flag: i["flag"].as_u64().unwrap_or(0) as u8,
-            resp_codec: enc_of(&i["payload_compressed_with"]), resp_has_body: i["has_body"].as_bool().unwrap_or(true), msg,
+            shape, sends: encs_of(&i["send_calls"]), accepts: encs_of(&i["accept_calls"]), user_md: vec![],
+            msgs: msgs_of(&i["msgs"]), resp_headers: pairs_of(&i["response_headers"]), resp_frames: frames_of(&i["response_frames"]),
+            trailers_only: i["trailers_only"].as_bool().unwrap_or(false), coalesce: i["coalesce"].as_bool().unwrap_or(false),
         });
     } else {
         let ops: Vec<Op> = i["ops"]
@@ -1230,7 +1542,7 @@ fn replay(out: &mut Out, file: &str) {
     }
 }
 
-const RULE: &str = "server: real tonic::server::Grpc::unary (raw codec, echo handler) under every ordered send/accept configuration (builder calls incl. repeats, or apply_compression_config) x grpc-accept-encoding values (lists, odd spacing, tabs, unknown tokens, q= params, case, empty items, obs-text, duplicates, 0/1/2 header lines) x request grpc-encoding values x flag bytes x payload codings x handler (metadata, disable_compression, error); observable = response headers, first frame flag, codec that really inflates the payload, or status code + grpc-accept-encoding. client_request / client_receive: real tonic::client::Grpc over a capturing transport. ops: enable/pop sequences on EnabledCompressionEncodings seen through Debug. Non-trivial = some configuration or header present. Distinct = distinct (kind, model expression).";
+const RULE: &str = "server: all four entry points of the real tonic::server::Grpc (unary, server_streaming, client_streaming, streaming; raw codec; handlers that read a streaming request to its end and answer with the configured message(s)) under every ordered send/accept configuration (builder calls incl. repeats, or apply_compression_config) x grpc-accept-encoding values (lists, odd spacing, tabs, unknown tokens, q= params, case, empty items, obs-text, duplicates, 0/1/2 header lines) x request grpc-encoding values x 0..3 request frames (flag bytes, payload codings, one chunk or several) x handler (metadata, disable_compression, error, 0..3 response messages); observable = response headers and EVERY response frame (flag, codec that really inflates it, exact bytes against the independent compressor), or status code + grpc-accept-encoding. client_request / client_receive: all four call shapes of the real tonic::client::Grpc over a capturing transport, every request frame, every delivered message. ops: enable/pop sequences on EnabledCompressionEncodings seen through Debug. Oracle exclusions (= stated theorem premises): the announce checks are off exactly when the handler's own metadata has a grpc-encoding entry; the client's no-header checks are off exactly when the caller's own metadata has that entry. Non-trivial = some configuration or header present. Distinct = distinct (kind, model expression).";
 
 fn main() {
     let a = args();
@@ -1243,8 +1555,10 @@ fn main() {
     let mut r = Rng::new(a.seed);
     let cfgs = all_configs();
     let msg = b"negotiate negotiate negotiate".to_vec();
+    let plain = |m: &[u8]| vec![InFrame { flag: 0, codec: None, msg: m.to_vec() }];
+    let two = vec![msg.clone(), b"second".to_vec()];
 
-    // ---- corpus: witnesses of F-C05a (fixed) and hand-picked edges, always first
+    // ---- corpus: witnesses of F-C05a (fixed) and hand-picked edges, always first; every shape
     let wit: &[(&[Enc], &[u8])] = &[
         (&[Enc::Gzip], b"zstd"),
         (&[Enc::Gzip], b"deflate, gzip"),
@@ -1254,92 +1568,156 @@ fn main() {
         (&[], b"gzip"),
         (&[Enc::Gzip, Enc::Deflate, Enc::Zstd], b"br, zstd ,gzip"),
     ];
-    for (send, v) in wit {
-        for via_apply in [false, true] {
-            case_server(&mut out, "corpus.server", ServerCase {
-                accept: vec![], send: send.to_vec(), via_apply,
-                headers: vec![(ACCEPT.into(), v.to_vec())], flag: 0, body_codec: None,
-                handler: plain_handler(), msg: msg.clone(),
-            });
+    for shape in SHAPES {
+        for (send, v) in wit {
+            for via_apply in [false, true] {
+                case_server(&mut out, "corpus.server", ServerCase {
+                    shape, accept: vec![], send: send.to_vec(), via_apply,
+                    headers: vec![(ACCEPT.into(), v.to_vec())], frames: plain(&msg), coalesce: false,
+                    handler: HandlerSpec { md: vec![], disable: false, err: None, msgs: two.clone() },
+                });
+            }
         }
     }
-    // every send configuration x every listed header value (request side plain)
+    // every send configuration x every listed header value (request side plain); shapes in turn
+    let mut k = 0usize;
     for send in &cfgs {
         for v in ACCEPT_VALUES {
             if !a.thorough && send.len() == 3 && send[0] != Enc::Zstd {
                 continue;
             }
-            case_server(&mut out, "corpus.server", ServerCase {
-                accept: vec![], send: send.clone(), via_apply: false,
-                headers: vec![(ACCEPT.into(), v.to_vec())], flag: 0, body_codec: None,
-                handler: plain_handler(), msg: msg.clone(),
-            });
+            for shape in SHAPES {
+                k += 1;
+                if !a.thorough && k % 4 != 0 {
+                    continue;
+                }
+                case_server(&mut out, "corpus.server", ServerCase {
+                    shape, accept: vec![], send: send.clone(), via_apply: false,
+                    headers: vec![(ACCEPT.into(), v.to_vec())], frames: plain(&msg), coalesce: false,
+                    handler: HandlerSpec { md: vec![], disable: false, err: None, msgs: two.clone() },
+                });
+                k += 1; // rotate the shape taken in the quick tier
+            }
         }
     }
-    // every accept configuration x every listed grpc-encoding value x flag 0/1
+    // every accept configuration x every listed grpc-encoding value x flag 0/1, every shape
     for acc in &cfgs {
         for v in ENCODING_VALUES.iter().skip(4) {
             for flag in [0u8, 1] {
                 if !a.thorough && acc.len() == 3 && acc[0] != Enc::Deflate {
                     continue;
                 }
-                let codec = if flag == 1 { Enc::by_name(v) } else { None };
-                case_server(&mut out, "corpus.server", ServerCase {
-                    accept: acc.clone(), send: vec![Enc::Gzip], via_apply: false,
-                    headers: vec![(ENCODING.into(), v.to_vec()), (ACCEPT.into(), b"gzip".to_vec())],
-                    flag, body_codec: codec, handler: plain_handler(), msg: msg.clone(),
-                });
+                for shape in SHAPES {
+                    k += 1;
+                    if !a.thorough && k % 3 != 0 {
+                        continue;
+                    }
+                    let codec = if flag == 1 { Enc::by_name(v) } else { None };
+                    case_server(&mut out, "corpus.server", ServerCase {
+                        shape, accept: acc.clone(), send: vec![Enc::Gzip], via_apply: false,
+                        headers: vec![(ENCODING.into(), v.to_vec()), (ACCEPT.into(), b"gzip".to_vec())],
+                        frames: vec![InFrame { flag, codec, msg: msg.clone() }], coalesce: false, handler: plain_handler(&msg),
+                    });
+                }
             }
         }
-        // compressed flag and no grpc-encoding at all
+        // compressed flag and no grpc-encoding at all; a second frame that is flagged
+        for shape in SHAPES {
+            case_server(&mut out, "corpus.server", ServerCase {
+                shape, accept: acc.clone(), send: vec![], via_apply: false, headers: vec![],
+                frames: vec![InFrame { flag: 1, codec: acc.first().copied(), msg: msg.clone() }], coalesce: false,
+                handler: plain_handler(&msg),
+            });
+            case_server(&mut out, "corpus.server", ServerCase {
+                shape, accept: acc.clone(), send: vec![], via_apply: false, headers: vec![],
+                frames: vec![InFrame { flag: 0, codec: None, msg: msg.clone() }, InFrame { flag: 1, codec: None, msg: msg.clone() }],
+                coalesce: true, handler: plain_handler(&msg),
+            });
+        }
+    }
+    // per-response opt-out, handler errors, empty bodies under a chosen encoding, every shape
+    for shape in SHAPES {
+        for (disable, err) in [(true, None), (false, Some((5, "nf".to_string()))), (true, Some((13, "x".to_string())))] {
+            case_server(&mut out, "corpus.server", ServerCase {
+                shape, accept: vec![], send: vec![Enc::Zstd, Enc::Gzip], via_apply: false,
+                headers: vec![(ACCEPT.into(), b"gzip, zstd".to_vec())], frames: plain(&msg), coalesce: false,
+                handler: HandlerSpec { md: vec![], disable, err, msgs: two.clone() },
+            });
+        }
         case_server(&mut out, "corpus.server", ServerCase {
-            accept: acc.clone(), send: vec![], via_apply: false, headers: vec![], flag: 1,
-            body_codec: acc.first().copied(), handler: plain_handler(), msg: msg.clone(),
+            shape, accept: vec![Enc::Gzip], send: vec![Enc::Gzip], via_apply: false,
+            headers: vec![(ACCEPT.into(), b"gzip".to_vec()), (ENCODING.into(), b"gzip".to_vec())], frames: vec![], coalesce: false,
+            handler: HandlerSpec { md: vec![], disable: false, err: None, msgs: vec![] },
+        });
+        // the unreserved name in the handler's metadata (premise of the announce theorem is false)
+        case_server(&mut out, "corpus.server", ServerCase {
+            shape, accept: vec![], send: vec![], via_apply: false, headers: vec![], frames: plain(&msg), coalesce: false,
+            handler: HandlerSpec { md: vec![(ENCODING.into(), b"gzip".to_vec())], disable: false, err: None, msgs: two.clone() },
         });
     }
-    // per-response opt-out and handler errors under a chosen encoding
-    for (disable, err) in [(true, None), (false, Some((5, "nf".to_string()))), (true, Some((13, "x".to_string())))] {
-        case_server(&mut out, "corpus.server", ServerCase {
-            accept: vec![], send: vec![Enc::Zstd, Enc::Gzip], via_apply: false,
-            headers: vec![(ACCEPT.into(), b"gzip, zstd".to_vec())], flag: 0, body_codec: None,
-            handler: HandlerSpec { md: vec![], disable, err }, msg: msg.clone(),
-        });
-    }
-    // client: every accept configuration, every single send, response encodings
+    // client: every accept configuration, every single send, response encodings, every shape
+    let ok_resp = vec![InFrame { flag: 0, codec: None, msg: b"ok".to_vec() }];
     for acc in &cfgs {
         for send in [vec![], vec![Enc::Gzip], vec![Enc::Deflate], vec![Enc::Zstd], vec![Enc::Gzip, Enc::Zstd]] {
-            case_client_request(&mut out, "corpus.client_request", ClientCase {
-                sends: send, accepts: acc.clone(), user_md: vec![], resp_headers: vec![], resp_flag: 0,
-                resp_codec: None, resp_has_body: true, msg: msg.clone(),
-            });
+            for shape in SHAPES {
+                k += 1;
+                if !a.thorough && k % 2 != 0 {
+                    continue;
+                }
+                case_client_request(&mut out, "corpus.client_request", ClientCase {
+                    shape, sends: send.clone(), accepts: acc.clone(), user_md: vec![], msgs: two.clone(), resp_headers: vec![],
+                    resp_frames: ok_resp.clone(), trailers_only: false, coalesce: false,
+                });
+            }
         }
         for v in ENCODING_VALUES.iter().skip(4) {
             if !a.thorough && acc.len() == 3 && acc[0] != Enc::Gzip {
                 continue;
             }
             for flag in [0u8, 1] {
-                let codec = if flag == 1 { Enc::by_name(v) } else { None };
-                case_client_receive(&mut out, "corpus.client_receive", ClientCase {
-                    sends: vec![], accepts: acc.clone(), user_md: vec![],
-                    resp_headers: vec![(ENCODING.into(), v.to_vec())], resp_flag: flag, resp_codec: codec,
-                    resp_has_body: true, msg: msg.clone(),
-                });
+                for shape in SHAPES {
+                    k += 1;
+                    if !a.thorough && k % 3 != 0 {
+                        continue;
+                    }
+                    let codec = if flag == 1 { Enc::by_name(v) } else { None };
+                    case_client_receive(&mut out, "corpus.client_receive", ClientCase {
+                        shape, sends: vec![], accepts: acc.clone(), user_md: vec![], msgs: vec![msg.clone()],
+                        resp_headers: vec![(ENCODING.into(), v.to_vec())],
+                        resp_frames: vec![InFrame { flag, codec, msg: msg.clone() }], trailers_only: false, coalesce: false,
+                    });
+                }
             }
         }
-        case_client_receive(&mut out, "corpus.client_receive", ClientCase {
-            sends: vec![], accepts: acc.clone(), user_md: vec![], resp_headers: vec![], resp_flag: 1,
-            resp_codec: acc.first().copied(), resp_has_body: true, msg: msg.clone(),
-        });
+        for shape in SHAPES {
+            case_client_receive(&mut out, "corpus.client_receive", ClientCase {
+                shape, sends: vec![], accepts: acc.clone(), user_md: vec![], msgs: vec![msg.clone()], resp_headers: vec![],
+                resp_frames: vec![InFrame { flag: 1, codec: acc.first().copied(), msg: msg.clone() }], trailers_only: false, coalesce: false,
+            });
+        }
     }
-    // trailers-only responses: the encoding check comes before the status
-    for (st, enc) in [("5", Some(&b"br"[..])), ("5", Some(b"gzip")), ("5", None), ("0", None), ("0", Some(b"br"))] {
-        let mut h: Pairs = vec![("grpc-status".into(), st.as_bytes().to_vec())];
-        if let Some(e) = enc {
-            h.push((ENCODING.into(), e.to_vec()));
+    // trailers-only responses: the encoding check comes before the status; empty bodies
+    for shape in SHAPES {
+        for (st, enc) in [("5", Some(&b"br"[..])), ("5", Some(b"gzip")), ("5", None), ("0", None), ("0", Some(b"br"))] {
+            let mut h: Pairs = vec![("grpc-status".into(), st.as_bytes().to_vec())];
+            if let Some(e) = enc {
+                h.push((ENCODING.into(), e.to_vec()));
+            }
+            case_client_receive(&mut out, "corpus.client_receive", ClientCase {
+                shape, sends: vec![], accepts: vec![Enc::Gzip], user_md: vec![], msgs: vec![msg.clone()], resp_headers: h,
+                resp_frames: vec![], trailers_only: true, coalesce: false,
+            });
         }
         case_client_receive(&mut out, "corpus.client_receive", ClientCase {
-            sends: vec![], accepts: vec![Enc::Gzip], user_md: vec![], resp_headers: h, resp_flag: 0,
-            resp_codec: None, resp_has_body: false, msg: msg.clone(),
+            shape, sends: vec![], accepts: vec![Enc::Gzip], user_md: vec![], msgs: vec![msg.clone()],
+            resp_headers: vec![(ENCODING.into(), b"gzip".to_vec()), (ACCEPT.into(), b"zstd".to_vec())],
+            resp_frames: vec![], trailers_only: false, coalesce: false,
+        });
+        // a bad first frame under response headers that carry grpc-accept-encoding (merged into the status)
+        case_client_receive(&mut out, "corpus.client_receive", ClientCase {
+            shape, sends: vec![], accepts: vec![Enc::Gzip], user_md: vec![], msgs: vec![msg.clone()],
+            resp_headers: vec![(ACCEPT.into(), b"zstd".to_vec())],
+            resp_frames: vec![InFrame { flag: 1, codec: None, msg: msg.clone() }], trailers_only: false, coalesce: false,
         });
     }
     // EnabledCompressionEncodings: all call sequences up to length 4 (5 in the thorough tier)
@@ -1361,15 +1739,15 @@ fn main() {
     }
 
     // ---- generated cases
-    let (n_srv, n_req, n_rcv, n_ops) = if a.thorough { (16000, 2500, 6000, 1500) } else { (1100, 250, 500, 150) };
+    let (n_srv, n_req, n_rcv, n_ops) = if a.thorough { (16000, 2500, 6000, 1500) } else { (1400, 250, 600, 150) };
     for _ in 0..n_srv {
         let accept = gen_calls(&mut r, &cfgs);
         let send = gen_calls(&mut r, &cfgs);
         let (headers, enc) = gen_request_headers(&mut r, &accept);
-        let (flag, body_codec) = gen_frame(&mut r, &enc);
-        let handler = if r.chance(1, 2) { plain_handler() } else { gen_handler(&mut r) };
+        let frames = gen_frames(&mut r, &enc);
+        let handler = if r.chance(1, 2) { HandlerSpec { md: vec![], disable: false, err: None, msgs: { let mut m = gen_msgs(&mut r); if m.is_empty() { m.push(gen_msg(&mut r)); } m } } } else { gen_handler(&mut r) };
         case_server(&mut out, "server", ServerCase {
-            accept, send, via_apply: r.chance(1, 5), headers, flag, body_codec, handler, msg: gen_msg(&mut r),
+            shape: *r.pick(&SHAPES), accept, send, via_apply: r.chance(1, 5), headers, frames, coalesce: r.chance(1, 2), handler,
         });
     }
     for _ in 0..n_req {
@@ -1391,8 +1769,8 @@ fn main() {
             user_md.push(("te".into(), b"x".to_vec()));
         }
         case_client_request(&mut out, "client_request", ClientCase {
-            sends, accepts: gen_calls(&mut r, &cfgs), user_md, resp_headers: vec![], resp_flag: 0,
-            resp_codec: None, resp_has_body: true, msg: gen_msg(&mut r),
+            shape: *r.pick(&SHAPES), sends, accepts: gen_calls(&mut r, &cfgs), user_md, msgs: gen_msgs(&mut r), resp_headers: vec![],
+            resp_frames: ok_resp.clone(), trailers_only: false, coalesce: false,
         });
     }
     for _ in 0..n_rcv {
@@ -1424,15 +1802,15 @@ fn main() {
         if r.chance(1, 5) {
             h.push(("x-reply".into(), b"v".to_vec()));
         }
-        let mut has_body = true;
+        let mut trailers_only = false;
         if r.chance(1, 20) {
             h.push(("grpc-status".into(), r.pick(STATUS_VALUES).to_vec()));
-            has_body = false;
+            trailers_only = true;
         }
-        let (flag, codec) = gen_frame(&mut r, &enc);
+        let frames = gen_frames(&mut r, &enc);
         case_client_receive(&mut out, "client_receive", ClientCase {
-            sends: vec![], accepts, user_md: vec![], resp_headers: h, resp_flag: flag, resp_codec: codec,
-            resp_has_body: has_body, msg: gen_msg(&mut r),
+            shape: *r.pick(&SHAPES), sends: vec![], accepts, user_md: vec![], msgs: vec![gen_msg(&mut r)], resp_headers: h,
+            resp_frames: frames, trailers_only, coalesce: r.chance(1, 2),
         });
     }
     for _ in 0..n_ops {
@@ -1441,5 +1819,5 @@ fn main() {
         case_ops(&mut out, "ops", &ops);
     }
 
-    out.finish(IMPORTS, RULE, json!({"configurations": cfgs.len()}));
+    out.finish(IMPORTS, RULE, json!({"configurations": cfgs.len(), "shapes": 4}));
 }
